@@ -167,6 +167,17 @@ CHECKS = {
         "are not generated yet.",
         "4/C12",
     ),
+    "C11": (
+        "metamorphic runtime monitor: one-argument mutation pairs; == => same SQL in 5 dialects and same result",
+        "For each generated pipeline p, q = p with one argument of one step changed by one of ~35 mutation operators "
+        "(literal value incl. 1 -> 1.0 -> True, operator, method, column, target, assignment order/removal, n-ary chain "
+        "extended by a term, partition/order/reverse, group_by, selections, order/limit, rename/map pairs and "
+        "deletions, join type/keys/key pairing, concat labels, table name/columns/order/qualifiers, is_in lists) or an "
+        "independent rebuild. Whenever p == q, the SQLite/PostgreSQL/BigQuery/SparkSQL/MySQL texts must be identical and "
+        "the Pandas results equal (raise iff raise). p == p, rebuilt copy == p, (p==q) == (q==p), != is the negation.",
+        "Trusted: Pandas executor; SQL text compared verbatim. convert_records steps are not generated yet.",
+        "4/C11",
+    ),
 }
 
 NOT_BUILT = "check not built yet (build in progress, see DESIGN.md section 8)"
